@@ -238,7 +238,51 @@ def m_migration_shape(doc, rng, extra):
     return "migration:duplicate"
 
 
-OPERATORS = [m_set_leaf, m_set_leaf, m_delete, m_unknown_field, m_rename_field, m_time_field, m_time_field, m_rate,
+def m_overlap_migration(doc, rng, extra):
+    """a second migration for the same ordered pair, overlapping / abutting / containing the first
+    in time, with every combination of zero and positive rates and both list orders"""
+    migs = doc.get("migrations")
+    if not isinstance(migs, list):
+        return None
+    cands = [m for m in migs if isinstance(m, dict) and "source" in m]
+    if not cands:
+        return None
+    m = rng.choice(cands)
+    ts = sorted(set(t for t in all_times(doc) if t != INF) | {0})
+    n = copy.deepcopy(m)
+    m["rate"] = rng.choice([0, 0, m.get("rate", 0.125)])
+    n["rate"] = rng.choice([0, 0.015625, 0.015625])
+    if len(ts) >= 2 and rng.random() < 0.7:
+        # give the first an interior window [lo, hi] and the second a window around / across it
+        i = rng.randrange(len(ts) - 1)
+        j = rng.randrange(i + 1, len(ts))
+        lo, hi = ts[i], ts[j]
+        m["start_time"], m["end_time"] = hi, lo
+        below = [t for t in ts if t < lo]
+        above = [t for t in ts if t > hi]
+        inside = [t for t in ts if lo <= t <= hi]
+        e = rng.choice((below or [None]) + [None, lo] + inside[:1])
+        st = rng.choice((above or [None]) + [None, hi] + inside[-1:])
+        for k, v in (("start_time", st), ("end_time", e)):
+            if v is None:
+                n.pop(k, None)
+            else:
+                n[k] = v
+    else:
+        for k in ("start_time", "end_time"):
+            r = rng.random()
+            if r < 0.4:
+                n.pop(k, None)
+            elif r < 0.9:
+                n[k] = rng.choice(ts + ([INF] if k == "start_time" else []))
+    if rng.random() < 0.5:
+        migs.append(n)
+    else:
+        migs.insert(migs.index(m), n)
+    return "migration:overlap"
+
+
+OPERATORS = [m_overlap_migration, m_overlap_migration, m_set_leaf, m_set_leaf, m_delete, m_unknown_field, m_rename_field, m_time_field, m_time_field, m_rate,
              m_proportions, m_size, m_size_function, m_names, m_defaults, m_defaults, m_header, m_migration_shape]
 
 
